@@ -509,6 +509,128 @@ def run_sign_loop(facts, rep, files=None):
     return n
 
 
+def run_wrapcast(facts, rep, files=None):
+    """R-CONTRA(wrapcast): `a.wrapping_sub(b) as i64` with u64 operands is the true difference a - b only when |a - b| < 2^63.
+    For words of multi-precision integers (elements of a [u64] buffer: arbitrary 64-bit values) the difference ranges over
+    (-2^64, 2^64); reinterpreting the wrapped value as a signed word of the same width is then off by exactly 2^64 for half
+    of the operand pairs — the decoded coefficient is wrong by 2^(64 (j+1)) / scale."""
+    R = "R-CONTRA(wrapcast)"
+    rep.rule(R, "no wrapped unsigned difference of multi-precision words is reinterpreted as a signed integer of the same width")
+    W = {"u64": "i64", "usize": "isize", "u32": "i32", "u128": "i128"}
+    ti = {s_: i_ for i_, s_ in enumerate(facts.strs)}
+    # positive example (expected count on a healthy tree is zero)
+    if "u64" in ti and "i64" in ti and "[u64]" in ti:
+        el = {"k": "Index", "t": ti["u64"], "e": {"k": "Path", "res": "local", "lid": 1, "name": "w", "t": ti["[u64]"]}, "i": {"k": "Lit", "v": "0"}}
+        syn = {"k": "Block", "stmts": [], "expr": {"k": "Cast", "t": ti["i64"], "e": {"k": "MCall", "name": "wrapping_sub", "t": ti["u64"],
+                                                                                     "recv": el, "args": [el]}}}
+    else:
+        syn = None
+    todo = ([("<self-test>", syn)] if syn else []) + [(p, facts.hir[p]) for p in sorted(facts.hir)
+                                                      if (files is None or facts.items[p]["file"] in files) and "::tests::" not in p]
+    n = 0
+    hit = False
+    for p, body in todo:
+        k_site = 0
+        for x in walk(body):
+            if x.get("k") != "Cast":
+                continue
+            inner = strip(x["e"])
+            if not (inner.get("k") == "MCall" and inner.get("name") == "wrapping_sub" and inner.get("args")):
+                continue
+            st, tt = facts.ty(inner), facts.ty(x)
+            if W.get(st) != tt:
+                continue
+            ops = [strip(inner["recv"]), strip(inner["args"][0])]
+
+            def word(e):
+                if e.get("k") != "Index":
+                    return False
+                bt = facts.ty(e["e"]).replace("&mut ", "").replace("&", "").strip()
+                return bt.startswith("[u64]") or "Vec<u64" in bt
+            if p == "<self-test>":
+                hit = hit or any(word(o) for o in ops)
+                continue
+            n += 1
+            rep.fn(p)
+            key = "%s/wrapcast#%d" % (p, k_site)
+            k_site += 1
+            if any(word(o) for o in ops):
+                rep.violation(R, key, "the wrapped difference of two words of multi-precision integers is cast to `%s`: the true difference "
+                              "lies in (-2^64, 2^64) and does not fit, so for operand pairs more than 2^63 apart the value is off by "
+                              "2^64 (a decoded coefficient is then wrong by 2^(64(j+1)) / scale)" % tt, facts.loc(p, x))
+            else:
+                rep.unresolved(R, key, "wrapped unsigned difference reinterpreted as `%s`; operand ranges not known" % tt, facts.loc(p, x))
+    if syn is not None:
+        if hit:
+            rep.ok(R, "self-test", "the matcher recognises `w[0].wrapping_sub(w[0]) as i64`", "rules/r_contra.py", nontrivial=False)
+        else:
+            rep.violation(R, "self-test", "the wrap-cast matcher no longer recognises its positive example")
+    return n
+
+
+def run_onesided_digit(facts, rep, files=None):
+    """R-CONTRA(onesided): the digits of a non-adjacent form are signed (+-2^k).  A test that singles out one magnitude (the
+    full-row digit N/2, which is a no-op rotation) must treat both signs alike: compare the digit's absolute value, or both
+    +C and -C.  An equality test of the signed digit itself against a non-negative quantity (a cast of an unsigned size)
+    handles +C only; the digit -C then takes the other branch — for the row-size digit it is handed to the rotation routine,
+    which refuses |step| >= N/2: legal negative steps whose NAF starts with -N/2 panic."""
+    R = "R-CONTRA(onesided)"
+    rep.rule(R, "an equality test on a signed NAF digit against a non-negative bound goes through the digit's absolute value "
+             "(or tests both signs)")
+    n = 0
+    for p in sorted(facts.hir):
+        it = facts.items[p]
+        if files is not None and it["file"] not in files:
+            continue
+        if "::tests::" in p:
+            continue
+        body = facts.hir[p]
+        naf_locals = set()
+        for x in walk(body):
+            if x.get("k") == "Let" and x["pat"].get("k") == "PBind" and "init" in x and \
+                    any(y.get("k") == "Call" and (callee(y) or {}).get("name") == "naf" for y in walk(x["init"])):
+                naf_locals.add(x["pat"]["lid"])
+        if not naf_locals:
+            continue
+        defs = Defs(body)
+        for lp in walk(body):
+            if lp.get("k") != "For" or lp["pat"].get("k") != "PBind":
+                continue
+            src = root_local(lp["iter"])
+            direct_naf = any(y.get("k") == "Call" and (callee(y) or {}).get("name") == "naf" for y in walk(lp["iter"]))
+            if not ((src and src[0] in naf_locals) or direct_naf):
+                continue
+            dl = lp["pat"]["lid"]
+            k_site = 0
+            for c in walk(lp["body"]):
+                if c.get("k") != "Bin" or c.get("op") not in ("==", "!="):
+                    continue
+                for me, other in ((c["a"], c["b"]), (c["b"], c["a"])):
+                    uses_digit = any(local_of(y) and local_of(y)[0] == dl for y in walk(me))
+                    if not uses_digit:
+                        continue
+                    n += 1
+                    rep.fn(p)
+                    key = "%s/digit-test#%d" % (p, k_site)
+                    k_site += 1
+                    through_abs = any(y.get("k") == "MCall" and y.get("name") in ("abs", "unsigned_abs", "wrapping_abs") for y in walk(me))
+                    bare = local_of(me) is not None and local_of(me)[0] == dl
+                    nonneg = any(y.get("k") == "Cast" and facts.ty(y["e"]).startswith("u") for y in defs.closure(other)) or \
+                        any(y.get("k") == "Bin" and y.get("op") == ">>" for y in defs.closure(other))
+                    if through_abs:
+                        rep.ok(R, key, "the digit is compared through its absolute value", facts.loc(p, c), sample={"function": p})
+                    elif bare and nonneg:
+                        # is the mirrored test present in the same condition (digit == C || digit == -C)?
+                        rep.violation(R, key, "the signed NAF digit is compared for (in)equality with a non-negative bound directly: only "
+                                      "the positive digit is singled out, its negative counterpart takes the other branch (for the "
+                                      "row-size digit: a recursive rotation by -N/2, which the step-to-element map refuses)",
+                                      facts.loc(p, c))
+                    else:
+                        rep.unresolved(R, key, "digit test of a form the rule does not read", facts.loc(p, c))
+                    break
+    return n
+
+
 def _len_recv(e):
     """root local of X in `X.len()` (through - 1), else None"""
     e = strip(e)
